@@ -7,7 +7,8 @@ mkdir -p $V/build
 if [ ! -x $V/build/genconsts ] || [ $V/tools/genconsts/main.go -nt $V/build/genconsts ]; then
   (cd $V/tools/genconsts && go1.26 build -o $V/build/genconsts .)
 fi
-$V/build/genconsts $V/tools/genconsts/spec.txt > $V/build/Consts.v.new
+cat $V/tools/genconsts/spec.txt $V/tools/genconsts/spec.d/*.txt 2>/dev/null > $V/build/spec.all
+$V/build/genconsts $V/build/spec.all > $V/build/Consts.v.new
 if ! cmp -s $V/build/Consts.v.new $V/coq/gen/Consts.v; then
   cp $V/build/Consts.v.new $V/coq/gen/Consts.v
   echo "Consts.v changed"
